@@ -78,7 +78,7 @@ def h_remove3(n: int, s1: int, r1: int, s2: int, r2: int, s3: int, r3: int, sel:
         return None
     if b1_step(s, n, s3, r3, True, SIG2) is None:
         return None
-    q = choose(sel, (0, 1, 3, 2))
+    q = choose(sel, (0, 1, 3, 2, 5))
     if q is None:
         return None
     rg = choose(rr, ranges(n))
@@ -155,7 +155,7 @@ def obligations(tier):
                       bounds='n=2, 3 apply steps (second one not topmost, over red/blue/bold), canonical removal ranges', kinds=KINDS))
         for r1 in (2, 4, 5) if tier == 'quick' else range(6):
             obs.append(Ob('remove3/n3/s%d/r%d' % (s1, r1), h_remove3, dict(n=3, s1=s1, r1=r1, cls=0), need=('removed3', 'equal-instances'), budget=900,
-                          bounds='n=3, 3 apply steps over (red, blue) incl. equal-valued instances, canonical removal ranges, selections None/red/blue/[red,bold], AnsiString and AnsiStr', kinds=KINDS))
+                          bounds='n=3, 3 apply steps over (red, blue) incl. equal-valued instances, canonical removal ranges, selections None/red/blue/[red,bold]/bold, AnsiString and AnsiStr', kinds=KINDS))
     obs.append(Ob('clear/b2/n2', h_clear, dict(n=2, k=2), need=('cleared',), budget=300, bounds='n=2', kinds=KINDS))
     if tier == 'quick':
         for s1 in range(2):
